@@ -47,6 +47,7 @@ META = {
                   "readonly_rejections": 7000, "readonly_defining_assignments": 2500,
                   "strict_undeclared_ops": 40000, "private_name_ops": 8000, "event_ops": 12000,
                   "constant_ops": 12000, "noop_removes_checked": 8000, "noop_removes_with_value": 100,
+                  "instance_traits_removed": 1800, "reads_directly_after_remove": 900,
                   "late_checks": 500, "late_checks_after_resolution": 300},
         "thorough": {"evaluations": 9000000, "hierarchies": 90000, "multi_prefix_ops": 1080000,
                   "cross_class_prefix_ops": 720000, "cross_instance_ops": 3240000,
@@ -54,15 +55,18 @@ META = {
                   "readonly_rejections": 252000, "readonly_defining_assignments": 90000,
                   "strict_undeclared_ops": 1440000, "private_name_ops": 288000, "event_ops": 432000,
                   "constant_ops": 432000, "noop_removes_checked": 288000,
-                  "noop_removes_with_value": 3600, "late_checks": 6000,
+                  "noop_removes_with_value": 3600, "instance_traits_removed": 64800,
+                  "reads_directly_after_remove": 32400, "late_checks": 6000,
                   "late_checks_after_resolution": 3600},
     },
     "assumptions": [
         "the manual's wildcard rules, HasStrictTraits/HasPrivateTraits definitions and the trait "
         "type table (defaults, accepted value classes of Int/Str/Bool/Float/Any) are the specification",
         "__dunder__ names are exercised but not judged (DESIGN C13 note N)",
-        "after add_trait / remove_trait changes the governing trait of a name, the value left in the "
-        "object from the previous regime is unspecified: the harness reads it once and adopts it",
+        "after add_trait changes the governing trait of a name, the value left in the object from the "
+        "previous regime is unspecified (add_trait keeps it): the harness reads it once and adopts it; "
+        "after a successful remove_trait the name must behave as a never-assigned name of the "
+        "class-level rule",
         "HasTraits itself declares the wildcard rule '_traits_cache__' (Any); it is part of the model's "
         "root rules",
     ],
@@ -467,7 +471,9 @@ class History:
         return s
 
     # -- operations ------------------------------------------------------------
-    def do_get(self, inst, name, tag="get"):
+    def do_get(self, inst, name, tag="get", key=None):
+        """Judged read.  `key`: report any disagreement under this mechanism
+        key (used for the read that directly follows a remove_trait)."""
         if name in DUNDER:
             attempt(getattr, inst.obj, name)
             self.ctx.count("dunder_ops_unjudged")
@@ -503,13 +509,13 @@ class History:
                 c = "readable" if out[0] == "ok" else "wrong-exception-" + out[0]
             else:
                 c = "unreadable-" + out[0]
-            self.fail("get/%s/%s" % (k, c),
+            self.fail(key or "get/%s/%s" % (k, c),
                       "read of %r (governed by %s via %s, stored=%s) gave %s, expected %s"
                       % (name, kind, route, has, out[0], exp[0]),
                       name=name, kind=kind, route=route, cls=inst.cls, expected=exp, got=out)
         if exp[0] == "ok" and not (out[1] is exp[1] or same(out[1], exp[1])):
             c = "wrong-default" if has == "no" else "wrong-value"
-            self.fail("get/%s/%s" % (k, c),
+            self.fail(key or "get/%s/%s" % (k, c),
                       "read of %r (governed by %s via %s, stored=%s) gave %r, expected %r"
                       % (name, kind, route, has, out[1], exp[1]),
                       name=name, kind=kind, route=route, cls=inst.cls, expected=exp, got=out)
@@ -626,7 +632,7 @@ class History:
             s[0], s[1] = "unknown", None
         self.ctx.sig("add", kind[0], _resolve_class(self.models[inst.cls], name)[1][0], self.root)
 
-    def do_remove(self, inst, name):
+    def do_remove(self, inst, name, read_now=True):
         had = name in inst.itraits
         s = inst.state(name)
         out = attempt(inst.obj.remove_trait, name)
@@ -643,8 +649,18 @@ class History:
                           name=name)
             del inst.itraits[name]
             inst.removed.add(name)
-            s[0], s[1] = "unknown", None
+            # "removing an instance trait restores the class-level rule": the
+            # value stored under the removed trait goes with it, so the name now
+            # behaves as a never-assigned name of the class-level rule (default /
+            # constant / Undefined and writable once / AttributeError for Event,
+            # Disallow and plain Python attributes).  No leniency here, unlike
+            # add_trait, which keeps the old value.
+            s[0], s[1] = "no", None
             self.ctx.count("instance_traits_removed")
+            if read_now:
+                self.ctx.count("reads_directly_after_remove")
+                self.do_get(inst, name, tag="read-after-remove",
+                            key="remove_trait/instance-trait/leftover-value")
             return
         if out[1] is not False:
             self.fail("remove_trait/no-instance-trait/returned-%r" % (out[1],),
@@ -734,7 +750,9 @@ def run_history(ctx, case, rng, stratum):
                     H.do_get(inst, name)
                     continue
                 had = name in inst.itraits
-                H.do_remove(inst, name)
+                # half of the removals are followed by other operations first
+                # (e.g. the defining assignment of a class-level ReadOnly)
+                H.do_remove(inst, name, rng.random() < 0.5)
                 if had and rng.random() < 0.7:
                     order = list(VCLASSES)
                     rng.shuffle(order)
